@@ -6,7 +6,8 @@ interleaving, sequentially consistent.  The queue is abstracted to two counters 
 the release of the popped message; `msgs`: messages that can be popped), which is what M-QUEUE-C proves about it
 (Full exactly when full, Empty exactly when empty).  `Event` and `DiatomicWaker` are external crates: their protocol
 is modelled from their source (async-event 0.2.1 `WaitUntil::poll`, `WaitSet::{insert, remove, cancel, notify}`;
-diatomic-waker 0.2.3 `WaitUntil::poll`, `notify`), not verified.  Closing is not in this model.
+diatomic-waker 0.2.3 `WaitUntil::poll`, `notify`), not verified.  A pending send may be cancelled at any time (`sDrop`: the future is dropped, its notifier cancelled).  Closing is not in
+this model.
 -/
 namespace NexoVerif.Chan
 
@@ -62,6 +63,7 @@ inductive Label
   | sTry2 (i : Nat)
   | sCancel (i : Nat) (k : Nat) -- `k`: the notifier popped from the wait set if this one had been notified meanwhile
   | sNotify (i : Nat)
+  | sDrop (i : Nat) (k : Nat)   -- a pending send is cancelled (its future is dropped): `WaitUntil::drop` cancels the notifier
   | rBegin
   | rRepoll
   | rTry1
@@ -104,6 +106,15 @@ def step (l : Label) (s : St) : Option St :=
       else if k < s.n ∧ s.inset k = true then
         -- it had been notified: the notification is passed on
         some { s with inset := upd s.inset k false, spc := upd s.spc i .notifyRecv }
+      else none
+    else none
+  | .sDrop i k =>
+    if i < s.n ∧ s.spc i = .pending then
+      if s.inset i = true then some { s with inset := upd s.inset i false, spc := upd s.spc i .idle }
+      else if setEmpty s then some { s with spc := upd s.spc i .idle }
+      else if k < s.n ∧ s.inset k = true then
+        -- it had been notified: the notification is passed on to another waiting sender
+        some { s with inset := upd s.inset k false, spc := upd s.spc i .idle }
       else none
     else none
   | .sNotify i =>
